@@ -4,7 +4,9 @@ go 1.16
 
 require (
 	github.com/bnb-chain/tss-lib/v2 v2.0.0
+	github.com/btcsuite/btcd v0.23.4
 	github.com/btcsuite/btcd/btcec/v2 v2.3.2
+	github.com/btcsuite/btcd/btcutil v1.1.0
 	google.golang.org/protobuf v1.31.0
 )
 
